@@ -247,7 +247,7 @@ def run(ctx, report: Report) -> None:
     range_table(ctx, report, r5, mmod, mr, itype_var)
 
     # ---- R6 ---------------------------------------------------------------------------------------------
-    r6 = report.rule('C18-R6', 'every string a value-shape regex accepts is converted (no accepted value is lost in int()/float())', floor=3)
+    r6 = report.rule('C18-R6', 'every string a value-shape regex accepts is converted (no accepted value is lost in int()/float())', floor=2)
     from ..excflow import INT_WS
     # which conversion every group of every value-shape regex goes through, observed by interpreting parse_value per range type
     # with marked group values and recording stand-ins for int() and float() (wherever the calls sit: in parse_value, in a
